@@ -93,11 +93,11 @@ class Env:
         return False, None
 
 
-_BUILTIN_NAMES = {'type', 'len', 'range', 'list', 'dict', 'tuple', 'set', 'sorted', 'filter', 'map', 'enumerate', 'next', 'iter', 'min',
+_BUILTIN_NAMES = {'type', 'float', 'object', 'len', 'range', 'list', 'dict', 'tuple', 'set', 'sorted', 'filter', 'map', 'enumerate', 'next', 'iter', 'min',
                   'max', 'any', 'all', 'isinstance', 'str', 'int', 'bool', 'abs', 'sum', 'reversed', 'zip', 'hasattr', 'getattr',
                   'print'}
 _STR_METHODS = {'strip', 'lstrip', 'rstrip', 'lower', 'upper', 'startswith', 'endswith', 'find', 'rfind', 'index', 'count',
-                'split', 'join', 'replace', 'isspace', 'isdigit', 'isalpha'}
+                'split', 'join', 'replace', 'isspace', 'isdigit', 'isalpha', 'splitlines', 'format', 'rjust', 'ljust', 'zfill'}
 _LIST_METHODS = {'append', 'extend', 'insert', 'pop', 'index', 'count', 'remove', 'copy', 'clear', 'sort', 'reverse'}
 _DICT_METHODS = {'get', 'items', 'keys', 'values', 'setdefault', 'update', 'pop'}
 
@@ -808,6 +808,8 @@ class Interp:
                 return int(args[0])
             elif name == 'bool' and len(args) == 1:
                 return self.truth(args[0])
+            elif name == 'float' and len(args) == 1 and isinstance(args[0], (str, int, float, bool)):
+                return float(args[0])
             elif name == 'reversed' and len(args) == 1:
                 return list(reversed(self.iterate(args[0], node)))
             elif name == 'zip':
